@@ -238,6 +238,8 @@ func (v *SortValue) EquivalentTo(compareValue *SortValue) bool {
 		switch compareValue.Type {
 		case IntegerType, BooleanType:
 			return v.Integer == compareValue.Integer
+		case FloatType:
+			return v.Float == compareValue.Float
 		}
 	case FloatType:
 		switch compareValue.Type {
@@ -245,6 +247,8 @@ func (v *SortValue) EquivalentTo(compareValue *SortValue) bool {
 			if math.IsNaN(v.Float) && math.IsNaN(compareValue.Float) {
 				return true
 			}
+			return v.Float == compareValue.Float
+		case IntegerType:
 			return v.Float == compareValue.Float
 		}
 	case DatetimeType:
